@@ -64,14 +64,21 @@ Next ==
                ELSE s' = [a EXCEPT !.pc = @ + 1, !.rets = Append(@, i.t), !.bases = Append(@, BaseOf(s))]
           [] op = "PopRet" ->
                IF s.rets = <<>> THEN s' = [s EXCEPT !.st = "popret-empty"]
+               \* the GOSUBs of the procedure that ends are not pending any more (ff637ed)
                ELSE s' = [a EXCEPT !.pc = s.rets[Len(s.rets)], !.rets = SubSeq(@, 1, Len(@) - 1),
-                                   !.bases = SubSeq(@, 1, Len(@) - 1)]
+                                   !.bases = SubSeq(@, 1, Len(@) - 1),
+                                   !.gos = IF Len(@) > Base(s).gos THEN SubSeq(@, 1, Base(s).gos) ELSE @]
           [] op = "GoSub" ->
                IF Len(s.gos) >= MaxRets THEN s' = [s EXCEPT !.st = "deep"]
-               ELSE s' = [a EXCEPT !.pc = i.t, !.gos = Append(@, s.pc)]
+               \* a pending GOSUB remembers the depths of the register and value stacks (13e046b)
+               ELSE s' = [a EXCEPT !.pc = i.t, !.gos = Append(@, [pc |-> s.pc, val |-> s.val, reg |-> s.reg])]
           [] op = "Return" ->
-               IF s.gos = <<>> THEN s' = [s EXCEPT !.st = "return-without-gosub"]      \* a BASIC error (3), not a defect
-               ELSE s' = [a EXCEPT !.pc = IF i.t >= 0 THEN i.t ELSE s.gos[Len(s.gos)] + 1,
+               \* only a GOSUB of this activation counts; without one it is a BASIC error (3), not a defect
+               IF Len(s.gos) <= Base(s).gos THEN s' = [s EXCEPT !.st = "return-without-gosub"]
+               \* RETURN leaves the FOR / SELECT CASE blocks of the routine: the two stacks are cut back to what they were
+               ELSE LET g == s.gos[Len(s.gos)] IN
+                    s' = [a EXCEPT !.pc = IF i.t >= 0 THEN i.t ELSE g.pc + 1,
+                                   !.val = IF @ > g.val THEN g.val ELSE @, !.reg = IF @ > g.reg THEN g.reg ELSE @,
                                    !.gos = SubSeq(@, 1, Len(@) - 1)]
           [] op = "OnErrorGoTo" ->
                \* the handler may start running from a statement boundary: explore it in a handler context
